@@ -187,9 +187,17 @@ def run(chk, repo, tier):
     # ---------------------------------------------------------------- C10-e
     shared_tilt_rule(chk, repo, eff, 'C10-f')
     common.tilt_slot_agreement(chk, repo, 'C10-e')
+    # the same total tilt reached by one fit or by several gives the same shift: every recorded tilt adds its own
+    # displacement to the shift it is handed, component by component
+    from .c04 import additive as _additive, folding as _folding
+    _additive(chk, repo, 'C10-e')
+    _folding(chk, repo, 'C10-e')
 
     # ---------------------------------------------------------------- C10-f
     common.mul_concat(chk, repo, 'C10-f')
+    # a spectrum keeps the arrays it was given: converting or editing it rebinds them, it never writes into them
+    from .c15 import spectrum_storage_rules as _spectrum_storage_rules
+    _spectrum_storage_rules(chk, repo, 'C10-f')
     plane_copy_rules(chk, repo, 'C10-f')
     from . import c17 as _c17
     nd_ = list(chk.not_decided)
